@@ -37,6 +37,7 @@ func init() {
 	plans["C03"] = func(thorough bool) []*Job {
 		var jobs []*Job
 		kinds := []string{"expired-observed", "expired-resurrected"}
+		_ = kinds
 		for _, cfg := range featureCfgs(true) {
 			if cfg.Expiry == "" {
 				continue
@@ -74,6 +75,11 @@ func init() {
 			for _, op := range []string{"set 1", "inv 1", "sea 1 50", "get 1", "cw 1", "all"} {
 				p := concParams{Label: "clock‖" + op, Cfg: cfg, Setup: []string{"set 1"}, Threads: [][]string{{"adv 100"}, {op, "getq 1"}}, Oracles: []string{"expired"}}
 				jobs = append(jobs, &Job{Scenario: "cache.conc", Params: js(p), PB: 2, Coarse: true, Shards: 1, BudgetS: 30, Need: []string{"seq-equiv-checked"}})
+			}
+			// fine-grained: the clock crosses the deadline while the operation is between two of its steps
+			for _, op := range []string{"set 1", "sia 1", "inv 1", "sea 1 50", "get 1", "gete 1", "cw 1", "ci 1", "cia 1", "cipw 1", "load 1 val"} {
+				p := concParams{Label: "clock‖" + op + "(fine)", Cfg: cfg, Setup: []string{"set 1", "set 2"}, Threads: [][]string{{"adv 100"}, {op, "getq 1"}}, Oracles: []string{"interleaving-equiv"}}
+				jobs = append(jobs, &Job{Scenario: "cache.conc", Params: js(p), PB: 2, Shards: 2, BudgetS: 30, Need: []string{"interleavings-explained"}})
 			}
 			// every operation on an expired-but-unswept key while a load of that key is in flight
 			for _, op := range []string{"cc 1", "ciac 1", "cipc 1", "get 1", "getq 1", "gete 1", "inv 1", "sea 1 50"} {
